@@ -460,6 +460,10 @@ def run_route(case):
                 seen = set()
                 for la, _ in ls:
                     if la.lanelet_id not in seen:
+                        if net.find_lanelet_by_id(la.lanelet_id) is not None:
+                            # the other network uses this id for a lanelet somewhere else: the receiving network keeps
+                            # its own lanelet (and must keep looking it up where it is)
+                            la.translate_rotate(np.array([437.0, -291.0]), 0.0)
                         other.add_lanelet(la)
                         seen.add(la.lanelet_id)
                 net.add_lanelets_from_network(other)
